@@ -535,13 +535,7 @@ pub fn parse_condition(condition: &str) -> Result<crate::ast::Condition, Compile
     match condition {
         "true" => Ok(Condition::Bool(true)),
         "false" => Ok(Condition::Bool(false)),
-        _ => {
-            if let Some(name) = condition.strip_suffix("()") {
-                return Ok(Condition::FunctionCall(name.trim().to_owned()));
-            }
-
-            Ok(Condition::Expression(parse_expression(condition)?))
-        }
+        _ => Ok(Condition::Expression(parse_expression(condition)?)),
     }
 }
 
